@@ -1,0 +1,24 @@
+//go:build verif
+// +build verif
+
+// Verification hook (add-only, build tag verif): read-only views of the AccountDB journal for the
+// C12 check (a static call frame must not append a journal entry; a failed frame must leave the
+// journal as long as it found it). Nothing here is compiled into a normal build.
+package account
+
+import "fmt"
+
+// VerifJournalLen returns the number of journal entries (len(adb.transitions)).
+func (adb *AccountDB) VerifJournalLen() int { return len(adb.transitions) }
+
+// VerifJournalKinds returns the Go type names of the journal entries from index `from` on.
+func (adb *AccountDB) VerifJournalKinds(from int) []string {
+	out := []string{}
+	for i := from; i >= 0 && i < len(adb.transitions); i++ {
+		out = append(out, fmt.Sprintf("%T", adb.transitions[i]))
+	}
+	return out
+}
+
+// VerifRevisions returns the number of valid revisions (len(adb.validRevisions)).
+func (adb *AccountDB) VerifRevisions() int { return len(adb.validRevisions) }
